@@ -422,4 +422,22 @@ Proof.
   eapply (pipeline_gt_vested H (vflag v) l w0 lf wf ef bf w1 ls ws es bs w2 sd rest ld wd ed bd w3); eauto.
   rewrite Hd. unfold reserve_total. rewrite Hres. lia.
 Qed.
+
+(** the contracts with guarantees that pay at once (migration, locked-tokens-and-guaranteed-tickets):
+    the cover invariant of [ClaimLedger] at the start of the claim period *)
+Corollary deployed_cover_gt v w0 lf wf ef bf w1 ls ws es bs w2 sd rest ld wd ed bd w3 :
+  guar v -> setup_reach_gt H v w0 ->
+  deposited (st w0) = true -> 0 < price (st w0) ->
+  after_interrupted filter_tickets lf w0 = Some wf -> filter_tickets ef bf wf = Ok (w1, 0) ->
+  seeds w1 = sd :: rest ->
+  after_interrupted (select_winners H) ls w1 = Some ws -> select_winners H es bs ws = Ok (w2, 0) ->
+  after_interrupted (distribute_guaranteed_tickets H (vflag v)) ld w2 = Some wd ->
+  distribute_guaranteed_tickets H (vflag v) ed bd wd = Ok (w3, 0) ->
+  exists l : list (N * N), ClaimInv w3 (map fst l) /\ CoverInv w3.
+Proof.
+  intros Hv Hr Hdep Hprice Haf Ef Hs Has Es Had Ed.
+  destruct (deployed_vested v w0 lf wf ef bf w1 ls ws es bs w2 sd rest ld wd ed bd w3 Hv Hr Hdep Hprice Haf Ef Hs Has Es Had Ed)
+    as (l & Hci & Hvi).
+  exists l. split; [exact Hci|]. unfold CoverInv. rewrite (vi_bal _ _ _ _ Hvi). lia.
+Qed.
 End HReachVested.
